@@ -46,6 +46,18 @@ type c09PVS struct {
 	Z c09SPM  `json:"z"`
 }
 
+// c09Owner / c09Pet: a reference cycle that crosses the inline depth, whose root holds a
+// pointer-receiver Marshaler by value: a batch Pretouch walk that comes back to the root in
+// another addressability context must not change what is cached for it
+type c09Owner struct {
+	Stamp gen.PM  `json:"stamp"`
+	Pet   *c09Pet `json:"pet,omitempty"`
+}
+type c09Pet struct {
+	Name  string    `json:"name"`
+	Owner *c09Owner `json:"owner,omitempty"`
+}
+
 type c09type struct {
 	name   string
 	t      reflect.Type
@@ -64,6 +76,7 @@ func c09types() []c09type {
 		{"Rec", reflect.TypeOf(gen.Rec{}), `{"V":1,"next":{"V":2,"kids":[{"V":3}]}}`, `{"V":1,"next":[1]}`, `{"V":1,"next":{"V":2,"kids":[{"V":3}]}}`},
 		{"PVS", reflect.TypeOf(c09PVS{}), `{"a":{"X":[1],"N":1},"z":{"X":[2],"N":2}}`, `{"a":[1]}`, `{"a":{"N":1},"z":{"N":2}}`},
 		{"Deep", reflect.TypeOf(gen.Deep{}), `{"L1":{"L2":{"L3":{"L4":{"L5":{"V":9}}}}}}`, `{"L1":{"L2":{"L3":{"L4":{"L5":{"V":"x"}}}}}}`, `{"L1":{"L2":{"L3":{"L4":{"L5":{"V":9}}}}}}`},
+		{"Owner", reflect.TypeOf(c09Owner{}), `{"stamp":[1],"pet":{"name":"p","owner":{"stamp":[2]}}}`, `{"pet":[1]}`, `{"pet":{"name":"p","owner":{"pet":{"name":"q"}}}}`},
 	}
 }
 
@@ -139,6 +152,13 @@ func c09ops() []c09op {
 		}))
 		add(fmt.Sprintf("Pretouch(Rec,inline=%d,rec=%d)", o[0], o[1]), false, guard(func() string {
 			return errLine(sonic.Pretouch(rec, option.WithCompileMaxInlineDepth(o[0]), option.WithCompileRecursiveDepth(o[1])))
+		}))
+	}
+	owner := ts[8].t
+	for _, o := range [][2]int{{1, 1}, {1, 2}, {1, 3}, {0, 2}, {2, 2}} {
+		o := o
+		add(fmt.Sprintf("Pretouch(Owner,inline=%d,rec=%d)", o[0], o[1]), false, guard(func() string {
+			return errLine(sonic.Pretouch(owner, option.WithCompileMaxInlineDepth(o[0]), option.WithCompileRecursiveDepth(o[1])))
 		}))
 	}
 	many := func(name string, idx ...int) {
@@ -244,8 +264,36 @@ func init() {
 		// it) is normalised, i.e. the only difference is whether the method was applied: the
 		// encoder's program cache is keyed by type alone and serves the program compiled for
 		// the first occurrence's addressability to every later occurrence
+		// The finding is identified by the HISTORY that fails: the single earlier operation
+		// after which the observing operation alone already shows the same wrong output (found by
+		// replaying [p, op] from reset caches for every p of the prefix), so another way into
+		// the same defect - another culprit operation - is a different key.
 		if exp := soloOf()[h[bad]]; strings.HasPrefix(ops[h[bad]].name, "Marshal(") && exp != got && c09pmNorm(exp) == c09pmNorm(got) {
-			key = "history:Marshal: pointer-receiver-marshaler applied-or-not depending on the addressability of the occurrence compiled first (encoder program cache keyed by type only)"
+			// smallest ordered sub-sequence of the prefix that still produces the same wrong output
+			pre := h[:bad]
+			culprit := "[" + strings.Join(names(pre), ", ") + "]"
+		search:
+			for size := 1; size < len(pre); size++ {
+				for mask := 1; mask < 1<<len(pre); mask++ {
+					var sub []int
+					for i := range pre {
+						if mask&(1<<i) != 0 {
+							sub = append(sub, pre[i])
+						}
+					}
+					if len(sub) != size {
+						continue
+					}
+					if b2, g2, _ := runHist(append(append([]int{}, sub...), h[bad])); b2 == size && g2 == got {
+						culprit = "[" + strings.Join(names(sub), ", ") + "]"
+						break search
+					}
+				}
+			}
+			if len(pre) == 1 || !strings.Contains(culprit, ", ") {
+				culprit = strings.Trim(culprit, "[]")
+			}
+			key = "history:addressability-fixed-at-first-compile(encoder program cache keyed by type only): " + culprit + " -> " + ops[h[bad]].name
 		}
 		return &ev.Violation{Property: "C09", Key: key,
 			What: "an operation's result depends on what the process did before", Case: ev.J(c09case{names(h[:bad+1])}),
@@ -277,26 +325,53 @@ func init() {
 			states := map[string]bool{}
 			// iterative deepening on the prefix length: every prefix of length 1, then of length
 			// 2, ... so that a deadline cuts the deepest level, never a whole first operation
+			// The prefix is executed once from reset caches; the state it leaves (the published
+			// immutable cache maps and the layout cache) is snapshotted and restored in front of
+			// every observing operation, which is the same state as replaying the prefix again
+			// (loaded code and the runtime's module list are the same either way).
 			observe := func(prefix []int) {
-				for _, last := range obsOps {
-					if r.Exhaustive == false {
+				if r.Exhaustive == false {
+					return
+				}
+				solo := soloOf()
+				verifhooks.ResetCodecCaches()
+				c.SetCase(string(ev.J(c09case{names(prefix)})))
+				for k, oi := range prefix {
+					r.Transitions++
+					if g := ops[oi].run(); g != solo[oi] {
+						// already reported as the observing operation of a shorter history,
+						// unless it is not an observing one
+						if !ops[oi].obs {
+							r.Violate(*mkViol(prefix[:k+1], k, g))
+						}
 						return
 					}
+				}
+				snap := verifhooks.SnapshotCodecCaches()
+				for _, last := range obsOps {
 					if c.Expired() {
 						r.Exhaustive = false
 						return
 					}
 					h := append(append([]int{}, prefix...), last)
 					c.SetCase(string(ev.J(c09case{names(h)})))
-					bad, got, st := runHist(h)
+					verifhooks.RestoreCodecCaches(snap)
+					got := ops[last].run()
 					r.States++
 					r.Evaluations++
-					r.Transitions += int64(len(h))
+					r.Transitions++
 					r.Validated++
-					if bad >= 0 {
-						r.Violate(*mkViol(h, bad, got))
+					if got != solo[last] {
+						// confirm on a full replay from reset caches before it is believed
+						if bad, g2, _ := runHist(h); bad >= 0 {
+							r.Violate(*mkViol(h, bad, g2))
+						} else {
+							r.Notes = append(r.Notes, "snapshot/restore and full replay disagree on "+strings.Join(names(h), ", "))
+							r.Exhaustive = false
+						}
 					} else {
-						states[st] = true
+						e, j, o := verifhooks.CacheSizes()
+						states[fmt.Sprintf("%d/%d/%d", e, j, o)] = true
 					}
 				}
 			}
